@@ -659,7 +659,23 @@ def c08_wills(rng, sid, nscen):
         if ver != 5 and clean1:
             E = 0
         will = {"topic": "w/" + rng.choice("ab"), "qos": rng.randrange(3), "retain": rng.random() < 0.3, "tag": "W%d" % i, "delay": delay}
-        end = rng.choice(["disc0", "disc4", "abort", "malformed", "keepalive", "takeover0", "takeover1", "terminate"])
+        end = rng.choice(["disc0", "disc4", "disc4raise", "discvoid", "abort", "malformed", "keepalive", "takeover0", "takeover1", "terminate"])
+        if end == "disc4raise":
+            # DISCONNECT 0x04 that raises the session expiry above the will delay: the will then waits for the whole delay
+            if ver == 5:
+                delay, exp = 2, 1
+            else:
+                end = "disc4"
+        if end == "discvoid":
+            # DISCONNECT 0x00 carrying a Session Expiry Interval although the session's interval is 0: a Protocol Error,
+            # not a DISCONNECT that removes the will
+            if ver == 5:
+                exp = 0
+            else:
+                end = "disc0"
+        if ver == 5:
+            E = exp
+            will["delay"] = delay
         kw = {"expiry": exp} if ver == 5 else {}
         if end == "keepalive":
             kw["keepalive"] = 1
@@ -673,6 +689,13 @@ def c08_wills(rng, sid, nscen):
             suppressed = True
         elif end == "disc4":
             steps.append({"op": "disconnect", "k": 1, "code": 4})
+        elif end == "disc4raise":
+            steps.append({"op": "disconnect", "k": 1, "code": 4, "expiry": 30})
+            E = 30
+            d = delay
+        elif end == "discvoid":
+            steps.append({"op": "disconnect", "k": 1, "code": 0, "expiry": 60})
+            anydisc = True
         elif end == "abort":
             steps.append({"op": "abort", "k": 1})
         elif end == "malformed":
